@@ -48,10 +48,11 @@ def classify(case, msg):
 
 def run(ctx):
     ctx.make_overlay(need_kernel=True)
-    ctx.regen_all()
+    ctx.regen_all(needed=("py2v_reject.py",))  # Gen/RejectSites.v: the four rejection sites as the source has them now
     ok = ctx.build_models(MODELS + ["Model/Iterative.vo"])
     if ok:
         ctx.build_props()
+        ctx.build_props("Props/C02g.vo")  # the generated rejection sites (rule, truncation, index spaces, columns) are the model
     cases = load_corpus("C06") + c02.gen_cases(ctx, return_logprobs=True, n_cases=90 if ctx.tier == "quick" else 900)
     n_eval = nt = 0
     try:
